@@ -288,6 +288,10 @@ def _run_unit(unit_dir, repo, workdir, rlimit=None, extra_args=None, timeout=900
         res['reason'] = f"extraction failed: {e}"
         res['time_s'] = time.time() - t0
         return res
+    except Exception as e:   # any other failure of a unit's extraction script is a limit of the machinery: undecided, never an alarm
+        res['reason'] = f"extraction failed ({type(e).__name__}): {e}"
+        res['time_s'] = time.time() - t0
+        return res
     os.makedirs(workdir, exist_ok=True)
     path = os.path.join(workdir, f"{name}.rs")
     with open(path, 'w') as f:
